@@ -21,7 +21,8 @@ from sismic.exceptions import NonDeterminismError, ConflictingTransitionsError
 class Exec:
     """one executed (state, op): everything the oracles may look at"""
     __slots__ = ('hist', 'op', 'conf_before', 'snaps_before', 'outcome', 'step', 'log', 'gseen',
-                 'conf_after', 'final_after', 'exc', 'it', 'drain', 'ctx_before', 'ctx_after')
+                 'conf_after', 'final_after', 'exc', 'it', 'drain', 'ctx_before', 'ctx_after',
+                 'leftovers', 'log_after_drain')
 
 
 class Runner:
@@ -37,7 +38,7 @@ class Runner:
         self.event = event
         self.extra_context = extra_context or {}
         self.interp_kwargs = interp_kwargs or {}
-        self.leftover = None
+        self.leftovers = []
 
     # ----------------------------------------------------------------- real execution
     def new_interpreter(self):
@@ -51,7 +52,7 @@ class Runner:
             t = int(transition.guard.split('(')[1].split(',')[0])
         return t
 
-    def apply(self, it, op):
+    def apply(self, it, op, drain=True):
         """apply one op to a live interpreter -> (outcome, step, exc)"""
         probes.VAL.clear()
         if op[0] == 'E':
@@ -65,15 +66,23 @@ class Runner:
             return type(e).__name__, None, e
         finally:
             probes.VAL.clear()
-        if op[0] in ('E', 'U') and step is not None and step.event is None:
-            # an eventless transition fired: the queued event is still pending; consume it with all
-            # guards false (transition-less step) so that the queue is not part of the state
-            self.leftover = it.execute_once()
+        # drain: events still queued (the event itself after an eventless step, internal events
+        # sent by the fragments) are consumed with all guards false by transition-less steps, so
+        # that the queues are not part of the explored state
+        self.leftovers = []
+        if drain:
+            while len(self.leftovers) < 64:
+                d = it.execute_once()
+                if d is None:
+                    break
+                self.leftovers.append(d)
         return ('step' if step is not None else 'none'), step, None
 
     def fresh(self, hist):
         it = self.new_interpreter()
         it.execute_once()
+        while it.execute_once() is not None:
+            pass
         for op in hist:
             self.apply(it, op)
         return it
@@ -86,11 +95,22 @@ class Runner:
         ex.ctx_before = _plain_ctx(it.context)
         probes.reset()
         try:
-            ex.outcome, ex.step, ex.exc = self.apply(it, op)
+            ex.outcome, ex.step, ex.exc = self.apply(it, op, drain=False)
         except Exception as e:      # anything else escaping execute_once
             ex.outcome, ex.step, ex.exc = 'crash:' + type(e).__name__, None, e
         ex.log = list(probes.LOG)
         ex.gseen = list(probes.GSEEN)
+        ex.leftovers = []
+        if ex.exc is None:
+            try:
+                while len(ex.leftovers) < 64:
+                    d = it.execute_once()
+                    if d is None:
+                        break
+                    ex.leftovers.append(d)
+            except Exception as e:
+                ex.outcome, ex.exc = 'crash:' + type(e).__name__, e
+        ex.log_after_drain = list(probes.LOG)
         ex.conf_after = frozenset(it.configuration)
         ex.final_after = it.final
         ex.ctx_after = _plain_ctx(it.context)
@@ -113,6 +133,18 @@ class Runner:
         cands = [i for i, tr in enumerate(self.model.trans) if tr['source'] in conf
                  and tr.get('guard') is not None]
         ops = []
+        if k == '3o':
+            # sub-bound: singles (to move around) + every triple of transitions whose sources are
+            # pairwise in different regions of a common orthogonal state
+            T = self.T
+            ops += [('E', (c,)) for c in cands]
+            for c in itertools.combinations(cands, 3):
+                srcs = [self.model.trans[i]['source'] for i in c]
+                if len(set(srcs)) == 3 and all(
+                        a not in T.anc(b) and b not in T.anc(a)
+                        for a, b in itertools.combinations(srcs, 2)):
+                    ops.append(('E', c))
+            k = 0
         for r in range(1, k + 1):
             ops += [('E', c) for c in itertools.combinations(cands, r)]
         if extra:
@@ -151,6 +183,14 @@ def explore(spec, k, oracles, builder='api', max_states=100000, k_by_arity=None,
     except Exception as e:
         ex.step, ex.outcome, ex.exc = None, 'crash:' + type(e).__name__, e
     ex.log, ex.gseen = list(probes.LOG), list(probes.GSEEN)
+    ex.leftovers = []
+    if ex.exc is None:
+        while len(ex.leftovers) < 64:
+            d = it.execute_once()
+            if d is None:
+                break
+            ex.leftovers.append(d)
+    ex.log_after_drain = list(probes.LOG)
     ex.conf_after, ex.final_after, ex.it, ex.drain = frozenset(it.configuration), it.final, it, None
     ex.ctx_after = _plain_ctx(it.context)
     res['transitions'] += 1
@@ -188,8 +228,18 @@ def explore(spec, k, oracles, builder='api', max_states=100000, k_by_arity=None,
     return res
 
 
+def oracle_crash(R, ex):
+    """any exception other than the two documented execution errors escaping execute_once on a
+    well-formed chart is a violation of whatever property is being checked"""
+    if ex.outcome.startswith('crash:'):
+        return [('crash', '%s escaped execute_once: %s' % (ex.outcome[6:], str(ex.exc)[:100]))]
+    if ex.drain and ex.drain[0] == 'crash':
+        return [('crash', '%s escaped the execute_once following a reported error' % ex.drain[1])]
+    return []
+
+
 def _judge(R, ex, oracles, res):
-    for orc in oracles:
+    for orc in list(oracles) + [oracle_crash]:
         for cat, detail in orc(R, ex):
             if len(res['violations']) < 40:
                 res['violations'].append({
@@ -256,15 +306,10 @@ def oracle_trace(R, ex):
         return out
     T = R.T
     exp = []
-    sent_expected = []
     for ms in ex.step.steps:
         exp += [('ex', x) for x in ms.exited_states]
         if ms.transition is not None:
-            tid = R.tid(ms.transition)
-            exp.append(('ac', tid))
-            act = R.model.trans[tid].get('action') or ''
-            if 'send(' in act:
-                sent_expected.append(('i%d' % tid, tid))
+            exp.append(('ac', R.tid(ms.transition)))
         exp += [('en', x) for x in ms.entered_states]
     log = [e for e in ex.log if e[0] in ('ex', 'ac', 'en')]
     if exp != log:
@@ -282,12 +327,22 @@ def oracle_trace(R, ex):
     if conf != set(ex.conf_after):
         out.append(('trace', 'micro steps give %s but configuration is %s'
                     % (sorted(conf), sorted(ex.conf_after))))
-    got_sent = [(e.name, e.data.get('v')) for e in ex.step.sent_events]
+    sent_expected = [e[1] for e in ex.log if e[0] == 'send']
+    got_sent = [e.name for e in ex.step.sent_events]
     if got_sent != sent_expected:
         out.append(('trace', 'sent_events %r but fragments sent %r' % (got_sent, sent_expected)))
+    # every sent event is later consumed by the sender itself, once, in sending order
+    consumed_later = [d.event.name for d in ex.leftovers if d.event is not None and d.event.name != R.event
+                      and d.event.name != 'zz_unhandled']
+    if consumed_later != sent_expected:
+        out.append(('trace', 'fragments sent %r but the interpreter later consumed %r'
+                    % (sent_expected, consumed_later)))
+    if ex.log_after_drain != ex.log:
+        out.append(('trace', 'code ran in steps that fire no transition: %r'
+                    % (ex.log_after_drain[len(ex.log):],)))
     per_ms = []
     for ms in ex.step.steps:
-        per_ms += [(e.name, e.data.get('v')) for e in ms.sent_events]
+        per_ms += [e.name for e in ms.sent_events]
     if per_ms != got_sent:
         out.append(('trace', 'per-micro-step sent events disagree with MacroStep.sent_events'))
     return out
